@@ -22,6 +22,7 @@ import (
 	"fmt"
 	"math/big"
 	"sort"
+	"strings"
 	"sync"
 
 	"github.com/cloudflare/pat-go/ecdsa"
@@ -169,7 +170,19 @@ func blind(b int) []byte {
 	return scDRBG("blind")
 }
 
-func originName(ks, o int) string { return fmt.Sprintf("origin%d.set%d.example", o+1, ks) }
+// originName: the three origins of a key set are near-duplicates of each other (o2 is o1 in
+// capitals, o3 is o1 with a trailing dot) and have distinct index keys: any normalisation between
+// the name a request carries and the index key that is used shows as a wrong ID.
+func originName(ks, o int) string {
+	base := fmt.Sprintf("origin.set%d.example", ks)
+	switch o {
+	case 1:
+		return strings.ToUpper(base)
+	case 2:
+		return base + "."
+	}
+	return base
+}
 
 var challengeLens = []int{32, 0, 65, 1000}
 
